@@ -98,7 +98,7 @@ class Ctx:
     # ------------------------------------------------------------------ TLC
     def tlc(self, spec_dir, module, cfg=None, workers=None, simulate=None, depth=None,
             timeout=600, expect_ok=True, count=True, extra=(), env=None, deadlock=None,
-            label=None, dfs=False):
+            label=None, dfs=False, heap=None):
         """Run TLC on module.tla with cfg in spec_dir.  simulate = number of
         behaviours (per run, worker count forced to 1 unless workers given)."""
         meta = tempfile.mkdtemp(prefix="tlcmeta-", dir=self.scratch)
@@ -116,7 +116,13 @@ class Ctx:
         cmd += list(extra)
         cmd += [module]
         e = dict(os.environ)
-        jto = "-Xss64m"
+        # Cap the heap: the tlc wrapper's default (25 % of RAM per JVM) lets a few
+        # concurrent checks exhaust the machine.  VERIF_TLC_HEAP or the dev-only
+        # override file /tmp/verif_tlc_heap change it.
+        hp = os.environ.get("VERIF_TLC_HEAP", "")
+        if not hp and os.path.exists("/tmp/verif_tlc_heap"):
+            hp = open("/tmp/verif_tlc_heap").read().strip()
+        jto = "-Xss64m -Xmx%s" % (heap or hp or "8g")
         if dfs:
             jto += " -Dtlc2.tool.queue.IStateQueue=StateDeque"
         e["JAVA_TOOL_OPTIONS"] = (e.get("JAVA_TOOL_OPTIONS", "") + " " + jto).strip()
@@ -186,7 +192,7 @@ class Ctx:
         self._built[key] = out
         return out
 
-    def vh(self, args, race=False, timeout=900, env=None, ok_codes=(0,), stdin=None):
+    def vh(self, args, race=False, timeout=900, env=None, ok_codes=(0,), stdin=None, fatal_key=None):
         exe = self.build_vh(race)
         e = dict(os.environ)
         e["VERIF_SEED"] = str(self.seed)
@@ -201,6 +207,14 @@ class Ctx:
                                errors="replace", timeout=timeout, input=stdin)
         except subprocess.TimeoutExpired:
             raise CheckerError("harness timeout after %ds: vh %s" % (timeout, " ".join(map(str, args))))
+        if p.returncode == 2 and "fatal error:" in p.stderr and fatal_key:
+            # The Go runtime killed the process (deadlock, concurrent map access, ...).  It is
+            # a verdict only when the fatal stack goes through the code under test.
+            if ("%s/" % REPO) in p.stderr or "AdguardTeam/golibs/" in p.stderr:
+                first = p.stderr[p.stderr.index("fatal error:"):].splitlines()[0]
+                self.mismatch("%s: %s" % (fatal_key, first), "the Go runtime aborted the process inside the code under test",
+                              p.stderr[:6000])
+                return p
         if p.returncode not in ok_codes:
             raise CheckerError("harness failed (rc=%d): vh %s\nstdout: %s\nstderr: %s"
                                % (p.returncode, " ".join(map(str, args)), p.stdout[-3000:], p.stderr[-3000:]))
